@@ -227,6 +227,12 @@ type e2eNode struct {
 	// configurer, if set, is registered for the voucher type on every manager lifetime
 	configurer datatransfer.TransportConfigurer
 
+	// lifeMu serialises manager lifetimes: a manager is stopped once, and no new
+	// lifetime starts once the world is closing
+	lifeMu  sync.Mutex
+	stopped bool
+	closing bool
+
 	mu     sync.Mutex
 	events map[datatransfer.ChannelID][]e2eEvent
 	cond   *sync.Cond
@@ -305,8 +311,14 @@ func (n *e2eNode) start(t fataler, ctx context.Context) {
 
 // restartProcess stops the manager and graphsync and starts new ones on the same stores.
 func (n *e2eNode) restartProcess(t fataler, ctx context.Context) {
-	n.stop()
+	n.lifeMu.Lock()
+	defer n.lifeMu.Unlock()
+	if n.closing {
+		return
+	}
+	n.stopLocked()
 	n.start(t, ctx)
+	n.stopped = false
 }
 
 // completeSentInEarlierLifetime reports whether an earlier manager lifetime of this node sent an un-paused Complete.
@@ -321,7 +333,19 @@ func (n *e2eNode) completeSentInEarlierLifetime(to peer.ID, tid datatransfer.Tra
 	return false
 }
 
+// stop ends the node for good (world teardown).
 func (n *e2eNode) stop() {
+	n.lifeMu.Lock()
+	defer n.lifeMu.Unlock()
+	n.closing = true
+	n.stopLocked()
+}
+
+func (n *e2eNode) stopLocked() {
+	if n.stopped {
+		return
+	}
+	n.stopped = true
 	ctx, cancel := context.WithTimeout(context.Background(), 5*time.Second)
 	defer cancel()
 	_ = n.mgr.Stop(ctx)
